@@ -2043,9 +2043,7 @@ class Tensor(object):
         if self.batch:
             batch_size = self.cores[0].shape[0]
 
-        for m in dim:
-            self.cores[m] = self._cp_to_tt(self.cores[m])
-        self.orthogonalize(-1)
+        self.orthogonalize(-1)  # Also turns CP cores into TT cores (with outer ranks 1)
         for mu in range(N - 1, -1, -1):
             if self.Us[mu] is None:
                 device = self.cores[mu].device
